@@ -8,13 +8,14 @@ import (
 )
 
 // Value is one of:
-//   *Term                      bool / integer scalars
-//   *StructV, *ArrayV          immutable aggregate nodes (copy-on-write along the modified path)
-//   *SymArrV                   byte array held as an SMT array (heap objects only)
-//   PtrV, SliceV               references into heap objects
-//   StrV, SymStr               strings: concrete, or concrete length with symbolic bytes
-//   IfaceV, FuncV, TupleV, MapV, *MapObj (heap), ChanV
-//   UnknownV                   value the engine could not compute; any use makes the path inconclusive
+//
+//	*Term                      bool / integer scalars
+//	*StructV, *ArrayV          immutable aggregate nodes (copy-on-write along the modified path)
+//	*SymArrV                   byte array held as an SMT array (heap objects only)
+//	PtrV, SliceV               references into heap objects
+//	StrV, SymStr               strings: concrete, or concrete length with symbolic bytes
+//	IfaceV, FuncV, TupleV, MapV, *MapObj (heap), ChanV
+//	UnknownV                   value the engine could not compute; any use makes the path inconclusive
 type Value interface{}
 
 type StructV struct{ F []Value }
